@@ -124,6 +124,9 @@ func (dist *GeneralizedGammaDistribution) ImportConfig(config ConfigDistribution
   if parameters, ok := config.GetParametersAsFloats(); !ok {
     return fmt.Errorf("invalid config file")
   } else {
+    if len(parameters) != 3 {
+      return fmt.Errorf("invalid config file")
+    }
     a := NewScalar(t, parameters[0])
     d := NewScalar(t, parameters[1])
     p := NewScalar(t, parameters[2])
